@@ -86,9 +86,9 @@ PROPS = {
         "assumptions": ["events carry no empty tag and allow/deny filters have distinct #x names (what the gate guarantees)"],
     },
     "C18": {
-        "lean_modules": ["MocProps.C18"],
-        "theorem_files": ["MocProps/C18.lean"],
-        "gen_groups": ["Mw", "Consts"],
+        "lean_modules": ["MocProps.C18", "MocProps.LockPairs"],
+        "theorem_files": ["MocProps/C18.lean", "MocProps/LockPairs.lean"],
+        "gen_groups": ["Mw", "Consts", "Locks"],
         "n_quick": 6000, "n_thorough": 60000, "thorough_seeds": 3,
         "rule": "stacks of MaxSubscriptions / RecvEventUniqueFilter / SendEventUniqueFilter (N and window sizes 1..4) over alphabets of 4 subscription "
                 "ids and 5 event ids, 4-16 messages per session, 1-3 CONCURRENT sessions on one middleware instance, each session compared with its own "
@@ -102,9 +102,9 @@ PROPS = {
         "assumptions": ["hashicorp LRU contract", "per-session state is created in ServeNostr / ServeNostrStart (checked by concurrent sessions in the run)"],
     },
     "C19": {
-        "lean_modules": ["MocProps.C19"],
-        "theorem_files": ["MocProps/C19.lean"],
-        "gen_groups": ["Prom"],
+        "lean_modules": ["MocProps.C19", "MocProps.LockPairs"],
+        "theorem_files": ["MocProps/C19.lean", "MocProps/LockPairs.lean"],
+        "gen_groups": ["Prom", "Locks"],
         "n_quick": 1500, "n_thorough": 15000, "thorough_seeds": 3,
         "rule": "1-3 sessions per case on a real prometheus.Registry, 2-12 messages each (REQ/CLOSE of 3 ids incl. repeats, server CLOSED, EVENT of several "
                 "kinds, COUNT, AUTH, all server message types), either interleaved step by step with a Gather() after every step, or run concurrently with "
@@ -215,7 +215,7 @@ PROPS = {
         "assumptions": ["for ephemeral events and for equal-created_at versions the OK verdict is not constrained by the monitor", "SQLite inserts are asynchronous: only reply shapes are judged here (content: C06)"],
     },
     "C15": {
-        "lean_modules": ["MocProps.C15", "MocProps.C15Locks"], "theorem_files": ["MocProps/C15.lean", "MocProps/C15Locks.lean"],
+        "lean_modules": ["MocProps.C15", "MocProps.C15Locks", "MocProps.LockPairs"], "theorem_files": ["MocProps/C15.lean", "MocProps/C15Locks.lean", "MocProps/LockPairs.lean"],
         "gen_groups": ["Cache", "Matcher", "Locks"], "race": True,
         "n_quick": 6000, "n_thorough": 60000, "thorough_seeds": 3,
         "rule": "2-4 goroutines x 1-3 calls (Add of related events: new versions at -1/0/+1 s, deletion requests of pre-loaded events, duplicates; match-everything and aimed "
@@ -298,8 +298,8 @@ PROPS = {
         "assumptions": ["faults are injected at driver-call granularity, not inside SQLite (no torn pages, no power loss)"],
     },
     "C07": {
-        "lean_modules": ["MocProps.C07", "MocProps.C07Sched"], "theorem_files": ["MocProps/C07.lean", "MocProps/C07Sched.lean"],
-        "gen_groups": ["Router", "Matcher"], "harness_prop": "router", "driver_prop": "router", "race": True,
+        "lean_modules": ["MocProps.C07", "MocProps.C07Sched", "MocProps.LockPairs"], "theorem_files": ["MocProps/C07.lean", "MocProps/C07Sched.lean", "MocProps/LockPairs.lean"],
+        "gen_groups": ["Router", "Matcher", "Locks"], "harness_prop": "router", "driver_prop": "router", "race": True,
         "monitors": ["delivery", "reply"],
         "n_quick": 1500, "n_thorough": 15000, "thorough_seeds": 3,
         "extra_streams": [{"harness_prop": "routerconc", "driver_prop": "routerconc", "monitors": ["delivery"], "n_quick": 150, "n_thorough": 1500,
